@@ -409,7 +409,7 @@ type runEnvelope struct {
 	Flow       *assets.FlowReference `json:"flow" validate:"required"`
 	Path       []*step               `json:"path" validate:"dive,required"`
 	Events     []json.RawMessage     `json:"events,omitempty"`
-	Results    flows.Results         `json:"results,omitempty" validate:"omitempty,dive"`
+	Results    flows.Results         `json:"results,omitempty" validate:"omitempty,dive,required"`
 	Status     flows.RunStatus       `json:"status" validate:"required"`
 	ParentUUID flows.RunUUID         `json:"parent_uuid,omitempty" validate:"omitempty,uuid4"`
 
